@@ -226,8 +226,28 @@ def sql_ops(prog: Program) -> RuleResult:
                 if f"operation is {o}" in src(s.test) and s.body and isinstance(s.body[0], ast.Return):
                     body_txt[o] = s.body[0].value
     sym = {"operator.eq": ast.Eq, "operator.ne": ast.NotEq, "operator.lt": ast.Lt, "operator.le": ast.LtE, "operator.gt": ast.Gt, "operator.ge": ast.GtE}
+    L, R = f.params[2], f.params[3]
     for o in ops:
         v = body_txt.get(o)
+        if o == "operator.ne":
+            # In memory None differs from every value (None != 5 is true); a plain SQL inequality is *unknown* when a side is NULL and leaves
+            # the row out.  The translation has to be the null-safe inequality: <column>.is_distinct_from(<other>), whichever side is the
+            # column; a plain != is acceptable only as the fallback when neither side can be asked (two Python values).
+            branch = next((s_ for s_ in f.node.body if isinstance(s_, ast.If) and f"operation is {o}" in src(s_.test)), None)
+            rets = [x.value for x in ast.walk(branch) if isinstance(x, ast.Return) and x.value is not None] if branch is not None else []
+
+            def null_safe(e) -> bool:
+                return (isinstance(e, ast.Call) and isinstance(e.func, ast.Attribute) and e.func.attr in ("is_distinct_from", "isnot_distinct_from") and e.func.attr == "is_distinct_from"
+                        and len(e.args) == 1 and {src(e.func.value), src(e.args[0])} == {L, R})
+
+            plain = [e for e in rets if isinstance(e, ast.Compare) and isinstance(e.ops[0], ast.NotEq) and src(e.left) == L and src(e.comparators[0]) == R]
+            safe = [e for e in rets if null_safe(e)]
+            guarded = branch is not None and all(any(isinstance(t, ast.If) and "is_distinct_from" in src(t.test) and t.lineno < e.lineno for t in ast.walk(branch)) for e in plain)
+            ok = bool(safe) and len(safe) + len(plain) == len(rets) and guarded
+            r.check(ok, f"OperatorMapper.map_comparison_operator#{o}", site(f, branch) if branch is not None else site(f), "; ".join(src(e) for e in rets)[:100], "the null-safe inequality, same operands",
+                    f"{o} is translated to {'; '.join(src(e) for e in rets) or 'nothing'}: for a row whose column is NULL a plain SQL inequality is unknown and the row is left out, while in memory "
+                    f"None != value holds (entity(o, o.w != 5.0) with an Optional w)")
+            continue
         ok = isinstance(v, ast.Compare) and isinstance(v.ops[0], sym.get(o, ())) and src(v.left) == f.params[2] and src(v.comparators[0]) == f.params[3]
         r.check(ok, f"OperatorMapper.map_comparison_operator#{o}", site(f), src(v) if v is not None else "", "same comparison, same operand order",
                 f"{o} is translated to {src(v) if v is not None else 'nothing'}: not the same comparison with the same operand order")
